@@ -8,6 +8,8 @@ meta = json.load(open(f"{d}/meta.json"))
 props = sys.argv[2:] or [meta["property"]]
 assert subprocess.run(["git", "-C", "/repo", "status", "--porcelain"], stdout=subprocess.PIPE, text=True).stdout.strip() == "", "/repo is dirty"
 assert subprocess.run(["git", "-C", "/repo", "apply", f"{d}/patch.diff"]).returncode == 0
+import shutil, glob
+backup = {f: open(f).read() for f in glob.glob("/verif/evidence/*.json")}
 try:
     res = {}
     for p in props:
@@ -22,5 +24,7 @@ try:
     meta["detection_detail"] = res
     json.dump(meta, open(f"{d}/meta.json", "w"), indent=1)
 finally:
+    for f, c in backup.items():  # evidence files must come from runs on the unchanged tree
+        open(f, "w").write(c)
     subprocess.run(["git", "-C", "/repo", "checkout", "--", "."])
     subprocess.run(["git", "-C", "/repo", "clean", "-fdq"])
